@@ -23,7 +23,9 @@ type Config struct {
 }
 
 type Op struct {
-	Op     string `json:"op"` // C05: ins rem clear setstrat unset ; C06: reg unreg cleanup ; C08: + drain
+	Op     string `json:"op"` // C05: ins rem clear setstrat unset batch ; C06: reg unreg cleanup ; C08: + drain
+	// batch: several next-hop changes inside one UpdateBatch (what the RIB's flattening uses), spelled in Strat:
+	// i = insert (Face, Cost), j = insert (Face+1, Cost+1), c = clear - on Name; I, J, C the same on Name + "/a"
 	Name   string `json:"name,omitempty"`
 	Face   uint64 `json:"face,omitempty"`
 	Cost   uint64 `json:"cost,omitempty"`
@@ -141,6 +143,12 @@ func (Engine) Generate(prop string, r *kit.Rand, tier string) *kit.Scenario[Conf
 				if r.Chance(0.05) {
 					o.Cost = ^uint64(0)
 				}
+				if r.Chance(0.12) {
+					// the same kind of change as the RIB's flattening makes it: a few clears and inserts in one batch
+					o.Op = "batch"
+					o.Cost = uint64(r.Intn(3))
+					o.Strat = kit.Pick(r, []string{"ici", "cij", "icj", "ciCI", "iIcC", "cICi", "icicj", "CIcIi", "jcJi"})
+				}
 			case 1:
 				o.Op, o.Face = "rem", uint64(r.Range(1, nfaces))
 			case 2:
@@ -233,6 +241,13 @@ func configure() {
 	configured = true
 }
 
+func childOf(n string) string {
+	if n == "/" {
+		return "/a"
+	}
+	return n + "/a"
+}
+
 func mkName(s string) enc.Name {
 	if s == "/" || s == "" {
 		return enc.Name{}
@@ -297,6 +312,9 @@ func universe(ops []Op) []string {
 		}
 		for _, p := range prefixesOf(o.Name) {
 			set[p] = true
+		}
+		if o.Op == "batch" {
+			set[childOf(o.Name)] = true
 		}
 		ext := o.Name + "/zz"
 		if o.Name == "/" {
@@ -429,6 +447,26 @@ func runC05(ctx *kit.Ctx, sc *kit.Scenario[Config, Op]) *kit.Result {
 				im.f.RemoveNextHopEnc(name, o.Face)
 			case "clear":
 				im.f.ClearNextHopsEnc(name)
+			case "batch":
+				child := mkName(childOf(o.Name))
+				im.f.UpdateBatch(func(b table.FibBatch) {
+					for _, ch := range o.Strat {
+						switch ch {
+						case 'i':
+							b.InsertNextHopEnc(name, o.Face, o.Cost)
+						case 'j':
+							b.InsertNextHopEnc(name, o.Face+1, o.Cost+1)
+						case 'c':
+							b.ClearNextHopsEnc(name)
+						case 'I':
+							b.InsertNextHopEnc(child, o.Face, o.Cost)
+						case 'J':
+							b.InsertNextHopEnc(child, o.Face+1, o.Cost+1)
+						case 'C':
+							b.ClearNextHopsEnc(child)
+						}
+					}
+				})
 			case "setstrat":
 				im.f.SetStrategyEnc(name, mkName(o.Strat))
 			case "unset":
@@ -475,6 +513,27 @@ func runC05(ctx *kit.Ctx, sc *kit.Scenario[Config, Op]) *kit.Result {
 					removals++
 				}
 				e.nh = map[uint64]uint64{}
+			}
+		case "batch":
+			ctx.Probe("fib-batch")
+			for _, ch := range o.Strat {
+				n := o.Name
+				if ch == 'I' || ch == 'J' || ch == 'C' {
+					n = childOf(o.Name)
+				}
+				switch ch {
+				case 'i', 'I':
+					model.get(n).nh[o.Face] = o.Cost
+				case 'j', 'J':
+					model.get(n).nh[o.Face+1] = o.Cost + 1
+				case 'c', 'C':
+					if e := model[n]; e != nil {
+						if len(e.nh) > 0 {
+							removals++
+						}
+						e.nh = map[uint64]uint64{}
+					}
+				}
 			}
 		case "setstrat":
 			model.get(o.Name).strat = o.Strat
